@@ -654,10 +654,9 @@ class Prop:
                 raise Violation("C19.handlers-skipped",
                                 "%s: other handlers did not all run: fault-free %s, faulted %s"
                                 % (what, ra["events"], rb["events"]), i, data=list(inj))
-            if len(rb["routed"]) != 1:
-                raise Violation("C19.exception-routing",
-                                "%s: %d exceptions reached the exception handlers (expected 1)"
-                                % (what, len(rb["routed"])), i, data=list(inj))
+            # (how often the failure is reported to the exception handlers is documented
+            # behaviour but no part of the statement: recorded, not judged)
+            env.probe("handler-fault-reported-%d-times" % min(len(rb["routed"]), 2))
             for j in range(i + 1, len(ops)):
                 a, b = A[j], B[j]
                 if a["key"] != b["key"] or not same_snap(a["snap"], b["snap"]) or a["events"] != b["events"]:
